@@ -32,8 +32,8 @@ theorem ful_done_of_quiescent {w s} (hi : Inv w s) (hq : ∀ l s', ¬ Step s l s
                 | inl => exact absurd (Step.fInvoke s c rest d hp hkind hf) (hq _ _)
                 | event => exact absurd (Step.fSet s c rest d hp hkind hf) (hq _ _)
                 | exec => exact absurd (Step.fIncRef s c rest d hp hkind hf) (hq _ _)
-                | target => exact absurd (Step.fRefLoad s c rest d hp (Or.inl hkind) hf) (hq _ _)
-                | retire => exact absurd (Step.fRefLoad s c rest d hp (Or.inr hkind) hf) (hq _ _)
+                | target => exact absurd (Step.fRefLoad s c rest d hp hkind hf) (hq _ _)
+                | retire => exact absurd (Step.fEnter s c rest d hp hkind hf) (hq _ _)
               · simp only [canFire, Classical.not_imp] at hf
                 obtain ⟨hr, hd⟩ := hf
                 subst hr
@@ -43,9 +43,7 @@ theorem ful_done_of_quiescent {w s} (hi : Inv w s) (hq : ∀ l s', ¬ Step s l s
           | incd => exact absurd (Step.fSubmit s c rest d hp) (hq _ _)
           | refd n =>
               have hn := (hi.r.f_refd c rest d n hp).1
-              rcases hk.2.1 n rfl with hkind | hkind
-              · exact absurd (Step.fForward s c rest d n hp hkind (by omega)) (hq _ _)
-              · exact absurd (Step.fRetire s c rest d n hp hkind) (hq _ _)
+              exact absurd (Step.fForward s c rest d n hp (hk.2.1 n rfl) (by omega)) (hq _ _)
           | post => exact absurd hp (hi.r.f_post _ _)
 
 theorem jobs_nil_of_quiescent {s} (hq : ∀ l s', ¬ Step s l s') : s.jobs = [] ∧ s.jobsRun = [] := by
@@ -56,6 +54,15 @@ theorem jobs_nil_of_quiescent {s} (hq : ∀ l s', ¬ Step s l s') : s.jobs = [] 
   · cases hj : s.jobsRun with
     | nil => rfl
     | cons c r => exact absurd (Step.jDec s c (by rw [hj]; simp)) (hq _ _)
+
+theorem rets_nil_of_quiescent {s} (hq : ∀ l s', ¬ Step s l s') : s.rets = [] ∧ s.retsLd = [] := by
+  constructor
+  · cases hj : s.rets with
+    | nil => rfl
+    | cons c r => exact absurd (Step.rRefLoad s c (by rw [hj]; simp)) (hq _ _)
+  · cases hj : s.retsLd with
+    | nil => rfl
+    | cons x r => exact absurd (Step.rRetire s x.1 x.2 (by rw [hj]; simp)) (hq _ _)
 
 /-- an observer that is neither idle nor blocked in a wait can always move -/
 theorem obs_idle_or_evt_of_quiescent {w s} (hi : Inv w s) (hq : ∀ l s', ¬ Step s l s') (t : Nat) :
@@ -75,10 +82,10 @@ theorem obs_idle_or_evt_of_quiescent {w s} (hi : Inv w s) (hq : ∀ l s', ¬ Ste
           | inl => exact absurd (Step.oInvoke s t c hp hkind) (hq _ _)
           | exec => exact absurd (Step.oIncRef s t c hp hkind) (hq _ _)
           | target => exact absurd (Step.oForward s t c hp hkind) (hq _ _)
-          | retire => exact absurd (Step.oRefLoad s t c hp hkind) (hq _ _)
+          | retire => exact absurd (Step.oEnter s t c hp hkind) (hq _ _)
           | event => exact absurd hkind hs.2.1
       | incd => exact absurd (Step.oSubmit s t c hp) (hq _ _)
-      | refd n => exact absurd (Step.oRetire s t c n hp) (hq _ _)
+      | refd n => exact absurd rfl (hs.2.2.2.2 n)
       | post => exact absurd rfl hs.2.2.1
   | rep x => exact absurd (Step.oReady s t x hp) (hq _ _)
   | touching => exact absurd (Step.oTouch s t hp) (hq _ _)
